@@ -60,31 +60,66 @@ def universe(ser):
     return out
 
 def ident_universe():
-    base=["u8","i8","u16","i16","u32","i32","u64","i64","u128","i128","usize","isize","bool","char","f32","f64","String","str","()",
-          "std::time::Duration","std::path::PathBuf","std::path::Path","std::num::NonZeroU8","std::num::NonZeroI32","Unit",
-          "std::sync::atomic::AtomicU8","std::sync::atomic::AtomicBool","std::ffi::OsString","std::cmp::Ordering"]
-    sized=[b for b in base if b not in ("str","std::path::Path")]
+    """every hand-written Identifiable impl of crates/stable_type_id occurs: all nullary types, every unary
+    constructor over every sized nullary type (where the constructor's bounds allow it), every binary
+    constructor over a small base, tuples of every arity 1..16 (with one deviating position each), and the
+    pairs of types a "define one in terms of the other" refactor would equate (HashSet<T,S> / HashMap<T,(),S>,
+    BTreeSet<T> / BTreeMap<T,()>, Option<T> / Result<T,()>, (T,) / [T;1] / T, ...)"""
+    prim=["u8","i8","u16","i16","u32","i32","u64","i64","u128","i128","usize","isize","bool","char","f32","f64"]
+    nonzero=["std::num::NonZero"+w for w in ("U8","U16","U32","U64","U128","Usize","I8","I16","I32","I64","I128","Isize")]
+    atomic=["std::sync::atomic::Atomic"+w for w in ("Bool","I8","I16","I32","I64","Isize","U8","U16","U32","U64","Usize")]
+    other=["String","()","std::time::Duration","std::time::Instant","std::time::SystemTime","std::path::PathBuf","Unit",
+           "std::ffi::OsString","std::ffi::CString","std::cmp::Ordering","std::sync::atomic::Ordering","std::convert::Infallible",
+           "std::hash::RandomState","std::hash::DefaultHasher","std::any::TypeId","std::marker::PhantomPinned","std::io::Error",
+           "std::io::ErrorKind","std::fmt::Error","std::alloc::Layout","std::alloc::LayoutError","std::net::IpAddr","std::net::Ipv4Addr",
+           "std::net::Ipv6Addr","std::net::SocketAddr","std::net::SocketAddrV4","std::net::SocketAddrV6","std::ops::RangeFull"]
+    unsized_=["str","std::path::Path","std::ffi::OsStr","std::ffi::CStr"]
+    sized=prim+nonzero+atomic+other
+    base=sized+unsized_
     un=["Option<{}>","Vec<{}>","Box<{}>","Rc<{}>","Arc<{}>","[{};0]","[{};1]","[{};2]","[{};3]","[{}]","({},)","std::cell::Cell<{}>","std::cell::RefCell<{}>",
         "std::ops::Range<{}>","std::ops::RangeInclusive<{}>","std::ops::RangeFrom<{}>","std::ops::RangeTo<{}>","std::ops::Bound<{}>","std::num::Wrapping<{}>",
         "BTreeSet<{}>","VecDeque<{}>","LinkedList<{}>","std::collections::BinaryHeap<{}>","std::marker::PhantomData<{}>","&'static {}","*const {}","*mut {}",
-        "std::sync::Mutex<{}>","std::sync::RwLock<{}>","std::sync::Weak<{}>","std::rc::Weak<{}>","std::mem::ManuallyDrop<{}>","Tup<{}>","std::pin::Pin<Box<{}>>"]
-    unsized_ok=["Box<{}>","Rc<{}>","Arc<{}>","&'static {}","*const {}"]
-    bin_=["({},{})","Result<{},{}>","Pair<{},{}>","Either<{},{}>","BTreeMap<{},{}>","HashMap<{},{},std::hash::RandomState>"]
+        "std::sync::Mutex<{}>","std::sync::RwLock<{}>","std::sync::Weak<{}>","std::rc::Weak<{}>","std::mem::ManuallyDrop<{}>","Tup<{}>","std::pin::Pin<Box<{}>>",
+        # the rest of the hand-written impls
+        "std::cell::UnsafeCell<{}>","std::cell::OnceCell<{}>","std::sync::OnceLock<{}>","std::mem::MaybeUninit<{}>","std::ptr::NonNull<{}>","&'static mut {}",
+        "std::num::Saturating<{}>","std::sync::atomic::AtomicPtr<{}>","std::ops::RangeToInclusive<{}>","std::hash::BuildHasherDefault<{}>",
+        "HashSet<{},std::hash::RandomState>","HashSet<{},std::hash::BuildHasherDefault<std::hash::DefaultHasher>>","std::pin::Pin<&'static {}>",
+        "std::pin::Pin<Rc<{}>>","std::pin::Pin<Arc<{}>>",
+        # what a set / option / wrapper could be "defined as"
+        "HashMap<{},(),std::hash::RandomState>","HashMap<{},(),std::hash::BuildHasherDefault<std::hash::DefaultHasher>>","BTreeMap<{},()>",
+        "Result<{},()>","Result<(),{}>","Result<{},std::convert::Infallible>","Box<[{}]>","Rc<[{}]>","Arc<[{}]>","Vec<[{};1]>","Option<({},)>"]
+    unsized_ok=["Box<{}>","Rc<{}>","Arc<{}>","&'static {}","*const {}","*mut {}","&'static mut {}","std::ptr::NonNull<{}>","std::sync::Weak<{}>","std::rc::Weak<{}>",
+                "std::cell::RefCell<{}>","std::cell::Cell<{}>","std::cell::UnsafeCell<{}>","std::sync::Mutex<{}>","std::sync::RwLock<{}>",
+                "std::marker::PhantomData<{}>","std::mem::ManuallyDrop<{}>","std::pin::Pin<Box<{}>>","std::pin::Pin<&'static {}>"]
+    bin_=["({},{})","Result<{},{}>","Pair<{},{}>","Either<{},{}>","BTreeMap<{},{}>","HashMap<{},{},std::hash::RandomState>",
+          "HashMap<{},{},std::hash::BuildHasherDefault<std::hash::DefaultHasher>>"]
     t=list(base)
     for b in sized:
         for c in un: t.append(c.format(b))
-    for b in ("str","std::path::Path"):
+    for b in unsized_:
         for c in unsized_ok: t.append(c.format(b))
+    # Cow needs ToOwned with an identifiable owner
+    for b in prim+["String","()","std::time::Duration","std::path::PathBuf","Unit","str","std::path::Path","std::ffi::OsStr","std::ffi::CStr","[u8]","[String]"]:
+        t.append("std::borrow::Cow<'static,%s>"%b)
     small=["u8","i8","u16","String","bool","()","Unit","char"]
     for a in small:
         for b in small:
             for c in bin_: t.append(c.format(a,b))
     for a,b,c in itertools.permutations(["u8","u16","String"],3): t.append(f"({a},{b},{c})")
     t += ["(u8,u8,u8)","(u8,u8)","(u8,u8,u8,u8)","((u8,u8),u8)","(u8,(u8,u8))","((u8,),u8)","(u8,(u8,))"]
+    # tuples of every implemented arity; one deviating element at every position
+    for n in range(1,17):
+        tail = ",)" if n==1 else ")"   # "(u8,u8,)" would be a second spelling of "(u8,u8)"
+        t.append("("+",".join(["u8"]*n)+tail)
+        for i in range(n):
+            e=["u8"]*n; e[i]="u16"; t.append("("+",".join(e)+tail)
+    # arrays: lengths that differ in one byte / one bit, and lengths >= 2^8, 2^16, 2^32
+    for n in (4,5,7,8,15,16,255,256,257,65535,65536,4294967296,4294967297):
+        t.append(f"[u8;{n}]"); t.append(f"[();{n}]")
     # depth 2: unary(unary(b)), unary(binary)
     for b in ["u8","String","bool"]:
-        for c1 in un[:24]:
-            for c2 in ["Option<{}>","Vec<{}>","Box<{}>","[{};2]","std::ops::Range<{}>","Tup<{}>","std::cell::Cell<{}>"]:
+        for c1 in un[:24]+un[34:47]:
+            for c2 in ["Option<{}>","Vec<{}>","Box<{}>","[{};2]","std::ops::Range<{}>","Tup<{}>","std::cell::Cell<{}>","HashSet<{},std::hash::RandomState>"]:
                 t.append(c1.format(c2.format(b)))
     for c in bin_:
         for c1 in ["Option<{}>","Vec<{}>","[{};2]"]:
@@ -94,7 +129,9 @@ def ident_universe():
     t += ["Pair<Pair<u8,u16>,String>","Pair<u8,Pair<u16,String>>","Either<Either<u8,u16>,String>","Either<u8,Either<u16,String>>",
           "Pair<Either<u8,u16>,String>","Either<Pair<u8,u16>,String>","Option<Vec<u8>>","Vec<Option<u8>>","Option<Option<u8>>","Vec<Vec<u8>>",
           "[[u8;2];3]","[[u8;3];2]","[u8;6]","Result<Result<u8,u16>,String>","Result<u8,Result<u16,String>>",
-          "HashMap<u8,HashMap<u16,String,std::hash::RandomState>,std::hash::RandomState>","HashMap<HashMap<u8,u16,std::hash::RandomState>,String,std::hash::RandomState>"]
+          "HashMap<u8,HashMap<u16,String,std::hash::RandomState>,std::hash::RandomState>","HashMap<HashMap<u8,u16,std::hash::RandomState>,String,std::hash::RandomState>",
+          "HashSet<HashSet<u8,std::hash::RandomState>,std::hash::RandomState>","HashSet<(u8,()),std::hash::RandomState>",
+          "std::hash::BuildHasherDefault<std::hash::BuildHasherDefault<std::hash::DefaultHasher>>"]
     seen=set(); out=[]
     for x in t:
         if x not in seen: seen.add(x); out.append(x)
